@@ -64,6 +64,12 @@ CHECKS = {
  "C05": ("exploration", "structure-aware hostile input generation plus bounded-exhaustive short inputs, run in one child process per allocation limit with a counting global allocator, panic capture, element-count work bounds and abort attribution by in-flight replay",
          "Every reading entry point on hostile datums, container files and decompression bombs under limits 4 KiB / 64 KiB / 1 MiB (16 MiB thorough): no panic, no abort, visited elements bounded by input size + limit, no single allocation above max(limit, 64 x input) + slack.",
          "Allocation is measured per calling thread; constant-size codec state is allowed 256 KiB of slack; data nesting depth is bounded by the generator; a true hang would show as a child that never returns.", "DESIGN.md §4 C05"),
+ "C16": ("exploration", "property-based testing over a compiled corpus of 27 serde types plus a dynamic serializer/deserializer driven by generated (schema, value) pairs; round-trip, differential (schema-aware vs generic route, reference decoder) and byte-count oracles across block sizes",
+         "Every generated value of every corpus type and every generated (schema, value) pair: schema-aware bytes are read back equal by the schema-aware deserializer, accepted by the generic and the reference decoder as exactly one conforming datum, the returned count equals the bytes emitted, for block sizes none/1/small/large; for the coinciding subset the generic route gives the same bytes up to block partitioning and recovers the value.",
+         "The corpus is hand-written (a proc-macro cannot be driven by a run-time generator); the dynamic side covers shapes by replaying generated values through every serde data-model method the schema permits.", "DESIGN.md §4 C16"),
+ "C17": ("exploration", "property-based testing over a compiled corpus of derived types x generated values; determinism, well-formedness walker, JSON round trip and serialize/deserialize/container round-trip oracles",
+         "Each derived schema is computed repeatedly and compared, walked by the harness's well-formedness walker, resolved, round-tripped through JSON; every generated value of each type serializes under the derived schema, reads back equal (datum, container file, single-object) and is accepted by the reference decoder.",
+         "The type corpus is fixed at compile time (attribute combinations enumerated by hand in harness/src/corpus.rs); a derive defect needing a type outside the corpus is not reached.", "DESIGN.md §4 C17"),
 }
 NOT_YET = {}
 
